@@ -310,7 +310,7 @@ func run(r *mon.Run) {
 
 		// incomplete / overlapping variant coverage must be refused at write time
 		for _, vs := range sets {
-			for _, kind := range []string{"missing", "overlapping"} {
+			for _, kind := range []string{"missing", "overlapping", "overlapping-last", "overlapping-first"} {
 				if len(vs.Exchanges) < 2 || (kind == "missing" && len(vs.Exchanges) < 3) {
 					// with a single remaining representation the URL is no variant set any more (not judged)
 					continue
@@ -318,8 +318,20 @@ func run(r *mon.Run) {
 				nb := *b
 				nb.Exchanges = nil
 				victim := vs.Exchanges[g.Intn(len(vs.Exchanges))]
+				mkdup := func(e *bundle.Exchange) *bundle.Exchange {
+					dup := *e
+					dup.Response.Header = http.Header{}
+					for k, v := range e.Response.Header {
+						dup.Response.Header[k] = v
+					}
+					dup.Response.Body = append([]byte("dup"), e.Response.Body...)
+					return &dup
+				}
+				if kind == "overlapping-first" {
+					nb.Exchanges = append(nb.Exchanges, mkdup(victim))
+				}
 				for _, e := range b.Exchanges {
-					if e == victim {
+					if e == victim && kind != "overlapping-last" && kind != "overlapping-first" {
 						if kind == "missing" {
 							continue
 						}
@@ -332,6 +344,10 @@ func run(r *mon.Run) {
 						nb.Exchanges = append(nb.Exchanges, &dup)
 					}
 					nb.Exchanges = append(nb.Exchanges, e)
+				}
+				if kind == "overlapping-last" {
+					// the overlapping representation comes after entries that already cover every key
+					nb.Exchanges = append(nb.Exchanges, mkdup(victim))
 				}
 				_, err, panicked := write(r, fmt.Sprintf("write-%s/%d", kind, i), &nb)
 				if err == nil || panicked {
